@@ -39,13 +39,20 @@ func (it witem) text() string {
 		}
 		return fmt.Sprintf("D%d.%d.%d.%d:%s:%s", it.d.local, it.d.arch, it.d.global, dv, strings.Join(fs, ","), strings.Join(ds, ","))
 	case 'R', 'C':
+		// an empty part (a field of size 0) is written "z": a list of one empty part is not the empty list
+		part := func(b []byte) string {
+			if len(b) == 0 {
+				return "z"
+			}
+			return hex.EncodeToString(b)
+		}
 		fs := make([]string, len(it.fields))
 		for i, f := range it.fields {
-			fs[i] = hex.EncodeToString(f)
+			fs[i] = part(f)
 		}
 		ds := make([]string, len(it.dev))
 		for i, f := range it.dev {
-			ds[i] = hex.EncodeToString(f)
+			ds[i] = part(f)
 		}
 		if it.kind == 'R' {
 			return fmt.Sprintf("R%d:%s:%s", it.local, strings.Join(fs, ","), strings.Join(ds, ","))
